@@ -8,6 +8,7 @@ import (
 	"github.com/invopop/gobl/cbc"
 	"github.com/invopop/gobl/data"
 	"github.com/invopop/gobl/i18n"
+	"github.com/invopop/validation"
 )
 
 const (
@@ -26,6 +27,16 @@ type CatalogueDef struct {
 	Description i18n.String `json:"description,omitempty"`
 	// Extensions defines all the extensions offered by the catalogue.
 	Extensions []*cbc.Definition `json:"extensions"`
+}
+
+// Validate checks the catalogue definition's contents.
+func (cd *CatalogueDef) Validate() error {
+	return validation.ValidateStruct(cd,
+		validation.Field(&cd.Key, validation.Required),
+		validation.Field(&cd.Name, validation.Required),
+		validation.Field(&cd.Description),
+		validation.Field(&cd.Extensions),
+	)
 }
 
 // RegisterCatalogueDef will register the catalogue in the global list of catalogues
